@@ -53,7 +53,10 @@ theorem subStep_frame (env : Env) (ow : Bool) (fs : FS) (s : Sub) (q : String) (
         cases ht : s.text with
         | fail e => rfl
         | text t => exact writeFile_frame _ _ _ _ _ h
-      | content => exact openThenWrite_frame _ _ _ _ _ h
+      | content =>
+        cases hr : readSrc fs s with
+        | fail e => rfl
+        | text t => exact writeFile_frame _ _ _ _ _ h
 
 theorem saveSubs_frame (env : Env) (ow : Bool) (subs : List Sub) (fs : FS) (q : String)
     (h : ∀ s ∈ subs, q ≠ s.path) : (saveSubs env ow fs subs).2.get q = fs.get q := by
@@ -97,19 +100,26 @@ theorem saveSubs_keeps (env : Env) (subs : List Sub) (fs : FS) (q : String) (hq 
 /-- the sub-file step fails no later than its own `open(…, "w")` -/
 def subFailsClean (env : Env) (ow : Bool) (fs : FS) (s : Sub) : Bool :=
   !pathFc env s.path || refuses ow fs s.path ||
-  (match s.kind, s.text with
-   | .cfg, .fail _ => true
-   | _, _ => !s.wr.openOk)
+  (match s.written fs with
+   | .fail _ => true
+   | .text _ => !s.wr.openOk)
 
 theorem subStep_clean (env : Env) (ow : Bool) (fs : FS) (s : Sub) (h : subFailsClean env ow fs s = true) :
     (∃ e, (subStep env ow fs s).1 = .error e) ∧ (subStep env ow fs s).2 = fs := by
   unfold subStep
-  unfold subFailsClean at h
+  unfold subFailsClean Sub.written at h
   by_cases h1 : pathFc env s.path = true
   · by_cases h2 : refuses ow fs s.path = true
     · simp [h1, h2]
-    · cases hk : s.kind <;> cases ht : s.text <;>
-        simp [h1, h2, hk, ht] at h ⊢ <;> simp [writeFile, openThenWrite, h]
+    · cases hk : s.kind with
+      | cfg =>
+        cases ht : s.text with
+        | fail e => simp [h1, h2]
+        | text t => simp [h1, h2, hk, ht] at h ⊢; simp [writeFile, h]
+      | content =>
+        cases ht : readSrc fs s with
+        | fail e => simp [h1, h2]
+        | text t => simp [h1, h2, hk, ht] at h ⊢; simp [writeFile, h]
   · simp [h1]
 
 /-- the forced hypothesis, as an explicit decidable predicate on the inputs: the step that fails is no later
@@ -172,15 +182,20 @@ theorem subStep_ok (env : Env) (ow : Bool) (fs : FS) (s : Sub) (h : (subStep env
           exact ⟨t, rfl, writeFile_ok _ _ _ _ h⟩
       | content =>
         simp only [hk] at h ⊢
-        exact openThenWrite_ok _ _ _ _ h
+        cases ht : readSrc fs s with
+        | fail e => simp [ht] at h
+        | text t =>
+          simp only [ht] at h ⊢
+          exact ⟨t, rfl, writeFile_ok _ _ _ _ h⟩
 
 /-- the loop of `save_paths`: on success every sub-config file holds its serialised text and every copied
-    file the content its source had at the start, provided the sub-file names are pairwise distinct -/
+    file the content its source had at the start, provided the sub-file names are pairwise distinct and the
+    source is not one of the OTHER files written (copying a file onto itself is fine since fix 1bcbda4) -/
 theorem saveSubs_ok_get (env : Env) (ow : Bool) (subs : List Sub) (fs : FS)
     (h : (saveSubs env ow fs subs).1 = .ok ()) (hnd : (subs.map (·.path)).Nodup) :
     ∀ s ∈ subs,
       (s.kind = .cfg → ∃ t, s.text = .text t ∧ (saveSubs env ow fs subs).2.get s.path = some t) ∧
-      (s.kind = .content → (∀ r ∈ subs, s.src ≠ r.path) →
+      (s.kind = .content → (∀ r ∈ subs, r.path ≠ s.path → s.src ≠ r.path) →
         ∃ t, fs.get s.src = some t ∧ (saveSubs env ow fs subs).2.get s.path = some t) := by
   induction subs generalizing fs with
   | nil => intro s hs; cases hs
@@ -204,13 +219,11 @@ theorem saveSubs_ok_get (env : Env) (ow : Bool) (subs : List Sub) (fs : FS)
         · intro hk
           simp only [Sub.written, hk] at ht
           exact ⟨t, ht, hfin⟩
-        · intro hk hsrc
-          have hne : s'.src ≠ s'.path := hsrc s' (List.mem_cons_self ..)
+        · intro hk _
           simp only [Sub.written, hk, readSrc] at ht
           split at ht
           · simp at ht
-          · rw [get_put_other _ _ _ _ hne] at ht
-            cases hg : fs.get s'.src with
+          · cases hg : fs.get s'.src with
             | none => simp [hg] at ht
             | some t' =>
               simp only [hg, Outcome.text.injEq] at ht
@@ -218,8 +231,9 @@ theorem saveSubs_ok_get (env : Env) (ow : Bool) (subs : List Sub) (fs : FS)
       · obtain ⟨ihc, ihp⟩ := ih _ h hnd' s' hin
         refine ⟨ihc, ?_⟩
         intro hk hsrc
-        obtain ⟨t', hg, hf⟩ := ihp hk (fun r hr => hsrc r (List.mem_cons_of_mem _ hr))
-        have hne : s'.src ≠ s.path := hsrc s (List.mem_cons_self ..)
+        obtain ⟨t', hg, hf⟩ := ihp hk (fun r hr hne => hsrc r (List.mem_cons_of_mem _ hr) hne)
+        have hpne : s.path ≠ s'.path := fun heq => hnot (List.mem_map.mpr ⟨s', hin, heq.symm⟩)
+        have hne : s'.src ≠ s.path := hsrc s (List.mem_cons_self ..) hpne
         rw [hfs, get_put_other _ _ _ _ hne] at hg
         exact ⟨t', hg, hf⟩
 
